@@ -74,6 +74,43 @@ CLAIMED = {
         note="Assumed: pandas and DuckDB semantics (concat order, sort, dedup, upsert, SQL) - the ordering and one-row-per-key sentences "
              "of the property rest on them and are NOT decided.",
         ref="DESIGN.md section 4 C19, Appendix A.6"),
+    'C13': dict(
+        text="Frame codec of the real IPC transport: encode_message(id,m) = id.bytes ++ be32(|p|) ++ p; over a ghost stream and cursor, "
+             "stream_recv_msg returns (id, loads(p)) and advances the cursor by exactly 20+|p| whenever the stream at the cursor starts "
+             "with that frame - consecutive frames are delivered one by one, in order, from any cursor; request construction "
+             "(f(:name,args) -> KGRemoteFnCall, function proxy passes the first `arity` of x,y,z, dictionary get/set commands); the "
+             "listener answers under the same message id; KGUndefined pickles by reference (AST-structural + native identity check).",
+        note="Assumed: StreamReader.readexactly returns the next n bytes however they arrived (this carries 'however the stream is "
+             "split'); pickle/struct/uuid codecs inverse on their domains. Not decided: value equivalence of pickled values and the "
+             "server-side evaluation.",
+        ref="DESIGN.md section 4 C13"),
+    'C14': dict(
+        text="Safety of the real listener: _listen resolves exactly the future stored under the received id with that frame's message "
+             "and removes it, an unknown id touches no pending future, a request is answered once under the same id; "
+             "_cleanup_pending_responses needs an exception instance unless the table is empty, visits every pending future and leaves "
+             "the table empty; every iteration of _run's connection loop runs the cleanup exactly once on every exit path with its "
+             "precondition satisfied, under arbitrary interference at the awaits (running may flip, calls may register futures).",
+        note="NOT decided: liveness ('never hangs', prompt failure after loss), the is_open-then-register window between threads, close "
+             "racing with calls. Assumed: asyncio run-to-completion between awaits, Future contracts, the C13 transport contracts.",
+        ref="DESIGN.md section 4 C14"),
+    'C18': dict(
+        text="Monitor reasoning on the real FileCache, sound for every interleaving: the guarded fields are only touched while the lock "
+             "is held (an obligation at each access); at every acquire the guarded state is havocked and the monitor invariant G "
+             "(accounting == sum of counted entries, 0 <= cur <= max, heap/table consistency, claims carry 0 bytes) assumed, at every "
+             "release G is proved; the source asserts are obligations under that havoc; waits on futures happen with the lock released.",
+        note="NOT decided: linearizability of returned values, progress, PandasDataFrameCache's per-file append lock. Assumed: "
+             "threading.Lock mutual exclusion; tasks run at any time on other threads; msum lemmas (Lean).",
+        ref="DESIGN.md section 4 C18"),
+    'C20': dict(
+        text="Per-request handler contract on the real closures (_get/_post): the route's handler is called exactly once with "
+             "dict(query)/dict(form), the response is str(result); any failure gives status 400 and escapes nowhere; the closure "
+             "registered by an iteration of the route loops captures that iteration's handler and route, wraps Klong functions in "
+             "KGFnWrapper and skips non-monads and calls; shutdown cancels the task and cleans the runner once; websocket _listen "
+             "receives, decodes and dispatches one message to .ws.m exactly once in order; the connection is pushed for the call and "
+             "popped on every exit; result or failure delivered to the waiting future exactly once.",
+        note="Assumed: aiohttp routing and request parsing, websockets, JSON codec, sockets ('after .webc the port no longer answers' "
+             "rests on aiohttp).",
+        ref="DESIGN.md section 4 C20"),
     'C15': dict(
         text="Representation invariant of the real KGTimerHandler / _call_periodic / run closure over ghost state (stopped flag, number of "
              "live loop handles): at most one live handle, none once stopped; .timerc returns 1 exactly when it stopped a live timer; the "
